@@ -1,7 +1,9 @@
 package sym
 
 import (
+	"fmt"
 	"go/types"
+	"os"
 
 	"golang.org/x/tools/go/ssa"
 )
@@ -57,6 +59,30 @@ func (e *Engine) initStoresOf(pkg *ssa.Package) map[*ssa.Global]bool {
 	scan(pkg.Func("init"), 0)
 	e.initStores[pkg] = m
 	return m
+}
+
+// foreignWritersOf returns the packages whose initializer assigns g although g
+// belongs to another package (config.init filling config/bounds' allocbounds):
+// natively those initializers have run before any harness code, so the lazy
+// initialisation has to run them too before g is first read.
+func (e *Engine) foreignWritersOf(g *ssa.Global) []*ssa.Package {
+	if e.foreignWriters == nil {
+		e.foreignWriters = map[*ssa.Global][]*ssa.Package{}
+		for _, pkg := range e.prog.AllPackages() {
+			if pkg.Pkg.Path() == vrPkg || pkg.Func("init") == nil {
+				continue
+			}
+			for og := range e.initStoresOf(pkg) {
+				if og.Pkg != nil && og.Pkg != pkg {
+					e.foreignWriters[og] = append(e.foreignWriters[og], pkg)
+				}
+			}
+		}
+	}
+	if os.Getenv("VERIF_DEBUG_INIT") != "" {
+		fmt.Fprintf(os.Stderr, "foreignWriters(%s) = %v (index %d)\n", g, e.foreignWriters[g], len(e.foreignWriters))
+	}
+	return e.foreignWriters[g]
 }
 
 func (e *Engine) lenient(st *State) bool {
@@ -145,6 +171,14 @@ func (e *Engine) globalPtr(st *State, g *ssa.Global) Value {
 			panic(sigRetry{})
 		}
 	}
+	if pkg != nil && pkg.Pkg.Path() != vrPkg && !e.lenientAny(st) {
+		for _, w := range e.foreignWritersOf(g) {
+			if !st.inited[w] {
+				e.runInit(st, w)
+				panic(sigRetry{})
+			}
+		}
+	}
 	p := e.allocGlobal(st, g, false)
 	return p
 }
@@ -183,8 +217,9 @@ func (e *Engine) snapshotInit(st *State, fr *Frame) {
 			sn.objs[id] = o
 		}
 	}
+	foreign := e.initStoresOf(fr.initPkg)
 	for g, id := range st.globals {
-		if g.Pkg == fr.initPkg {
+		if _, written := foreign[g]; g.Pkg == fr.initPkg || written {
 			sn.globals[g] = id
 			sn.objs[id] = st.heap[id]
 		}
